@@ -180,7 +180,12 @@ pub fn gen_workload(sub: u64) -> Workload {
 fn script_for(f: &FileScript, shadow: &Path) -> String {
     let sp = shadow.join("w").join(&f.path);
     let sp = sp.display();
+    // one child in four closes its standard output as soon as it has written everything and only
+    // ends (successfully or not) a little later: its fate is learnt after the end of its output
+    let linger = if simcore::fnv(f.path.as_bytes()) % 4 == 0 { ",closeout,sleep:120" } else { "" };
     match &f.fate {
+        Fate::Clean if !linger.is_empty() => format!("cat:{sp}{linger}"),
+        Fate::FailAfterOutput(c) if !linger.is_empty() => format!("cat:{sp}{linger},exit:{c}"),
         Fate::Clean => format!("cat:{sp}"),
         Fate::NoisySuccess => format!("err:300,cat:{sp},err:100"),
         Fate::StderrFlood => format!("err:4194304,cat:{sp},err:4194304"),
